@@ -2,7 +2,10 @@
 """C16 — type-erased containers have value semantics under any copy/move/assign history.
 See DESIGN.md §6 C16.
 
-Op lines (a sequence starts with `reset c`, c = bit0 POCCA | bit1 POCMA | bit2 SOCCC→default):
+Op lines (a sequence starts with `reset c k`, c = bit0 POCCA | bit1 POCMA | bit2 SOCCC→default; k = wrapper kind:
+0 bespoke TypeErased<VT, A, 32>, 1 the real TypeErasedProblem<DefaultConfig, A>, 2 the real
+TypeErasedControlProblem<DefaultConfig, A> (both: small buffer 0, always heap), 3 TypeErased<RMVT, A> with a
+required-method.hpp style vtable and the library's default small-buffer size):
   def i a | ip i a T v thr | cp i a k thr | mv i a k | ptr i a k const
   cc i j thr | cca i j a thr | mc i j | mca i j a | ca i j thr | ma i j | del i
   get i | set i v | as i T | asc i T | gp i
@@ -11,14 +14,23 @@ and compare equal, any other pair is unequal); T ∈ S(16) E(32 = small
 buffer size) L(48); k: environment object 0 (S) / 1 (L); thr: the payload constructor throws.
 """
 import itertools
+import multiprocessing
 import os
+import random
+import subprocess
 import sys
+import tempfile
+import time
 
 sys.path.insert(0, os.path.dirname(os.path.abspath(__file__)))
 import common as C
 
 NPOOL = 3
 ENV_TY = {0: 'S', 1: 'L'}
+KINDS = {0: 'util::TypeErased<VT, A, 32> (bespoke vtable)',
+         1: 'TypeErasedProblem<DefaultConfig, A> (small buffer 0)',
+         2: 'TypeErasedControlProblem<DefaultConfig, A> (small buffer 0)',
+         3: 'util::TypeErased<RMVT, A> (required-method.hpp vtable, default small buffer = 32)'}
 
 
 # ---------------------------------------------------------------- abstract bookkeeping
@@ -31,6 +43,11 @@ class Spec:
         self.val = {}                       # key -> value (None = unspecified, e.g. moved-from)
         self.env = {0: 100, 1: 101}
         self.nkey = 0
+
+    def clone(self):
+        s = Spec.__new__(Spec)
+        s.slot = list(self.slot); s.val = dict(self.val); s.env = dict(self.env); s.nkey = self.nkey
+        return s
 
     def fresh(self, v):
         self.nkey += 1
@@ -175,37 +192,74 @@ def mutators():
 
 
 PROBES = ['get 0', 'get 1', 'get 2']
+# accessors that do not change the state: after every depth-1 history, on every slot
+RICH_PROBES = PROBES + [f'{op} {i}{a}' for i in range(NPOOL)
+                        for op, a in (('gp', ''), ('as', ' S'), ('as', ' L'), ('asc', ' S'), ('asc', ' E'))]
 
 
-def exhaustive(rng, depth, budget, cfgs):
-    """all mutator sequences of length `depth` from every pair of initial slot contents, for the
-    given trait configurations; sub-sampled (seeded) down to about `budget` lines."""
-    S = setups()
-    M = mutators()
-    seqs = []
-    for c in cfgs:
-        for s0 in S:
-            for s1 in S:
-                pre = [x.format(i=0) for x in s0] + [x.format(i=1) for x in s1]
-                for ms in itertools.product(M, repeat=depth):
-                    seqs.append((c, pre, ms))
-    per = 2 + len(S[-1]) * 2 + depth * (1 + len(PROBES))
-    keep = max(1, budget // per)
-    if len(seqs) > keep:
-        seqs = rng.sample(seqs, keep)
+def enum_sequences(cfg, kind, s0, s1, depth):
+    """All mutator sequences of length `depth` from the initial contents (s0, s1) of slots 0 and 1,
+    as lists of op lines.  A sequence containing a mutator whose slot precondition fails (`bad-op`:
+    the harness itself refuses it before touching a wrapper, so the state is unchanged) is the same
+    history as a shorter one and is not emitted; it is counted in `pruned`.  The state after every
+    proper prefix is probed by the shorter depths, so only the final state is probed here."""
+    pre = [x.format(i=0) for x in s0] + [x.format(i=1) for x in s1]
+    sp0 = Spec()
+    for x in pre:
+        sp0.apply(x.split())
+    M = [(m, m.split()) for m in mutators()]
+    head = [f'reset {cfg} {kind}'] + pre
+    tail = RICH_PROBES if depth == 1 else PROBES
     out = []
-    for c, pre, ms in seqs:
-        out.append(f'reset {c}')
-        out += pre
-        for m in ms:
-            out.append(m)
-            out += PROBES
-    return out, len(seqs)
+    stats = [0]
+
+    def rec(sp, d, acc):
+        if d == 0:
+            out.append(head + acc + tail)
+            return
+        for m, mt in M:
+            sp2 = sp.clone()
+            if sp2.apply(mt) == 'bad-op':
+                if depth == 1:                  # depth 1 keeps them: both sides must refuse
+                    out.append(head + [m] + tail)
+                else:
+                    stats[0] += len(M) ** (d - 1)
+                continue
+            rec(sp2, d - 1, acc + [m])
+    rec(sp0, depth, [])
+    return out, stats[0]
+
+
+def sampled(rng, depth, budget):
+    """seeded sample (random walks over the non-refused mutators) of the depth-`depth` histories, all
+    trait configurations and wrapper kinds, about `budget` lines"""
+    S = setups()
+    M = [(m, m.split()) for m in mutators()]
+    out, nseq = [], 0
+    while len(out) < budget:
+        s0, s1 = rng.choice(S), rng.choice(S)
+        pre = [x.format(i=0) for x in s0] + [x.format(i=1) for x in s1]
+        sp = Spec()
+        for x in pre:
+            sp.apply(x.split())
+        seq = [f'reset {rng.randrange(8)} {rng.randrange(4)}'] + pre
+        for _ in range(depth):
+            for _try in range(50):
+                m, mt = rng.choice(M)
+                sp2 = sp.clone()
+                if sp2.apply(mt) != 'bad-op':
+                    sp = sp2
+                    seq.append(m)
+                    seq += PROBES
+                    break
+        out += seq
+        nseq += 1
+    return out, nseq
 
 
 def random_seq(rng, length):
     sp = Spec()
-    out = [f'reset {rng.randrange(8)}']
+    out = [f'reset {rng.randrange(8)} {rng.randrange(4)}']
     for _ in range(length):
         free = [i for i in range(NPOOL) if sp.slot[i] is None]
         have = [i for i in range(NPOOL) if sp.slot[i] is not None]
@@ -243,31 +297,25 @@ def random_seq(rng, length):
 
 
 def gen_ops(rng, n):
-    """n ≈ number of op lines."""
-    thorough = n > 200000
+    """n ≈ number of op lines of the standard flow: seeded samples of the depth-3 and depth-4 histories
+    and random long sequences, over all wrapper kinds and trait configurations (the exhaustive depths
+    run in `exhaustive_stage`)."""
     out = []
-    # exhaustive part: depth 1 for all 8 trait configurations (complete), depth 2 sub-sampled
-    # (complete in the thorough tier for 4 configurations), depth 3 sampled
-    e1, n1 = exhaustive(rng, 1, 10 ** 9, range(8))
-    out += e1
-    e2, n2 = exhaustive(rng, 2, int(n * 0.45), range(8))
-    out += e2
-    if thorough:   # depth 2 complete for one trait configuration (chosen by the seed)
-        e2c, n2c = exhaustive(rng, 2, 10 ** 9, (rng.randrange(8),))
-        out += e2c
-        n2 += n2c
-    e3, n3 = exhaustive(rng, 3, int(n * 0.15), range(8))
+    e3, n3 = sampled(rng, 3, int(n * 0.25))
     out += e3
-    # random long sequences
-    budget = int(n * 0.30)
+    e4, n4 = sampled(rng, 4, int(n * 0.15))
+    out += e4
+    budget = int(n * 0.60)
+    nrand = 0
     while budget > 0:
         L = rng.choice([5, 10, 20, 50, 100, 200])
         s = random_seq(rng, L)
         out += s
         budget -= len(s)
-    out.append('reset 0')
-    gen_ops.stats = {'depth1_sequences': n1, 'depth2_sequences': n2, 'depth3_sequences': n3,
-                     'lines': len(out)}
+        nrand += 1
+    out.append('reset 0 0')
+    gen_ops.stats = {'sampled_depth3_sequences': n3, 'sampled_depth4_sequences': n4,
+                     'random_sequences': nrand, 'lines': len(out)}
     return out
 
 
@@ -303,10 +351,28 @@ def new_seq_state(st):
     st['ops'] = 0
 
 
+CELLS = {}     # (wrapper kind, op, outcome class) -> count, over the standard flow of this process
+EVENTS = {}    # wrapper kind -> set of event letters seen
+
+# what every wrapper kind must have been seen doing (op -> outcome classes), see `required_cells`
+REQUIRED_OUTCOMES = {
+    'def': ['ok'], 'ip': ['ok', 'exc:ctor'], 'cp': ['ok', 'exc:copy'], 'mv': ['ok'], 'ptr': ['ok'],
+    'cc': ['ok', 'exc:copy'], 'cca': ['ok', 'exc:copy'], 'mc': ['ok'], 'mca': ['ok'],
+    'ca': ['ok', 'exc:copy'], 'ma': ['ok'], 'del': ['ok'],
+    'get': ['val', 'empty'], 'set': ['val', 'exc:const', 'empty'],
+    'as': ['val', 'exc:type', 'exc:const'], 'asc': ['val', 'exc:type'], 'gp': ['val', 'exc:const']}
+REQUIRED_EVENTS = 'ADCKMXTRW'
+
+
+def required_cells():
+    return [(k, op, oc) for k in KINDS for op, ocs in REQUIRED_OUTCOMES.items() for oc in ocs]
+
+
 def monitor(op, out, st):
     if 'spec' not in st:
         new_seq_state(st)
         st['first'] = True
+        st.setdefault('kind', 0)
     t = op.split()
     ev, res, bad = parse_out(out)
     exp = None
@@ -314,6 +380,18 @@ def monitor(op, out, st):
         # the specification advances on every op, whatever the checks below find
         st['ops'] += 1
         exp = st['spec'].apply(t)
+    r = monitor_checks(op, t, ev, res, bad, exp, st)
+    if r is None and t[0] != 'reset':
+        cells = st.get('cells', CELLS)
+        key = (st['kind'], t[0], exp if isinstance(exp, str) else 'val')
+        cells[key] = cells.get(key, 0) + 1
+        st.get('events', EVENTS).setdefault(st['kind'], set()).update(e[0] for e in ev)
+    if t[0] == 'reset':
+        st['kind'] = int(t[2]) if len(t) > 2 else 0
+    return r
+
+
+def monitor_checks(op, t, ev, res, bad, exp, st):
     if bad:
         return f'heap misuse detected in the real run: {" ".join(bad)}'
     ctor, dtor, blocks = st['ctor'], st['dtor'], st['blocks']
@@ -400,16 +478,21 @@ def monitor(op, out, st):
             for b in al:
                 if blocks[b][1] is None:
                     return f'`{op}` threw but block {b} allocated for the copy was not released'
-            if exp == 'exc:copy' and t[0] == 'ca':
-                i = int(t[1])
-                if sp.slot[i] != ('empty',):
-                    return 'internal: spec'
+            if any(e[0] in ('C', 'K', 'M') for e in ev):
+                return f'`{op}` threw but a payload object was constructed and kept'
+        if exp in ('ok', 'empty', 'bad-op') and any(e[0] in ('R', 'W') for e in ev):
+            return f'`{op}`: a payload was read / written by an operation that dispatches nothing'
         return None
     # ---- dispatch: own current object
     _, c, v = exp
     if res[:1] != ['val'] or len(res) != 3:
         return f'`{op}`: expected a dispatch result, real code gave `{got}`'
     oid, val = int(res[1]), int(res[2])
+    rw = [e for e in ev if e[0] in ('R', 'W')]
+    if t[0] == 'set' and [e[0] for e in rw] != ['W']:
+        return f'`{op}`: expected exactly one write, events {rw}'
+    if t[0] != 'set' and any(e[0] == 'W' for e in rw):
+        return f'`{op}`: a read-only access wrote to object {rw}'
     if v is not None and val != v:
         return (f'`{op}` dispatched to an object with value {val}, value semantics require {v} '
                 f'(slot content {c})')
@@ -435,12 +518,187 @@ def nontrivial(op, out):
     return (op.split()[0], kinds, res[0] if res else '')
 
 
+# ---------------------------------------------------------------- exhaustive histories (parallel)
+
+def plan(tier):
+    """(depth, wrapper kinds, trait configurations) run exhaustively in this tier"""
+    p = [(1, range(4), range(8)), (2, range(4), range(8))]
+    if tier == 'thorough':
+        p.append((3, range(4), range(8)))
+    return p
+
+
+def seq_around(lines, i):
+    """the op lines of the sequence containing line i (from its `reset` to the next one, inclusive)"""
+    a = i
+    while a > 0 and not lines[a].startswith('reset'):
+        a -= 1
+    b = i + 1
+    while b < len(lines) and not lines[b].startswith('reset'):
+        b += 1
+    return lines[a:b + 1]
+
+
+def run_job(job):
+    """one (kind, cfg, initial contents) cell at one depth: real code + model + monitor"""
+    exe, dexe, kind, cfg, a, b, depth = job
+    S = setups()
+    seqs, pruned = enum_sequences(cfg, kind, S[a], S[b], depth)
+    lines = [l for s in seqs for l in s] + ['reset 0 0']
+    inp = ('\n'.join(lines) + '\n').encode()
+    res = dict(kind=kind, cfg=cfg, depth=depth, nseq=len(seqs), pruned=pruned, lines=len(lines), viol=[],
+               corr=None, cells={}, events={})
+    h = subprocess.run([exe], input=inp, stdout=subprocess.PIPE, stderr=subprocess.PIPE)
+    hout = h.stdout.decode(errors='replace').split('\n')
+    if hout and hout[-1] == '':
+        hout.pop()
+    if h.returncode != 0 or len(hout) != len(lines):
+        i = min(len(hout), len(lines) - 1)
+        res['viol'].append((f'real code crashed / aborted (rc={h.returncode}) on `{lines[i]}`: '
+                            f'{h.stderr.decode(errors="replace")[-400:]}', seq_around(lines, i), None))
+    st = {'cells': res['cells'], 'events': res['events']}
+    for i, (o, ho) in enumerate(zip(lines, hout)):
+        try:
+            m = monitor(o, ho, st)
+        except Exception as e:           # a monitor crash must not look like a pass
+            m = f'monitor crashed on output {ho[:80]!r}: {e!r}'
+        if m:
+            res['viol'].append((m, seq_around(lines, i), ho))
+            break
+    if dexe:
+        d = subprocess.run([dexe], input=inp, stdout=subprocess.PIPE, stderr=subprocess.PIPE)
+        dout = d.stdout.decode(errors='replace').split('\n')
+        if dout and dout[-1] == '':
+            dout.pop()
+        i = C.diff_streams(lines, hout, dout)
+        if i is not None:
+            res['corr'] = (i, lines[i] if i < len(lines) else '<eof>', hout[i] if i < len(hout) else None,
+                           dout[i] if i < len(dout) else None, seq_around(lines, min(i, len(lines) - 1)))
+    res['events'] = {k: ''.join(sorted(v)) for k, v in res['events'].items()}
+    return res
+
+
+def exhaustive_stage(rep, broken, exe, tier):
+    """every history up to the tier's depth, for every wrapper kind and trait configuration"""
+    dexe = C.driver_exe('drv_c16')
+    if not os.path.exists(dexe):
+        dexe = None
+    nS = len(setups())
+    table, t0 = {}, time.time()
+    cells, events = dict(CELLS), {k: set(v) for k, v in EVENTS.items()}
+    nviol = 0
+    ctx = multiprocessing.get_context('fork')
+    with ctx.Pool(max(2, min(C.NPROC - 2, 14))) as pool:
+        for depth, kinds, cfgs in plan(tier):
+            jobs = [(exe, dexe, k, c, a, b, depth) for k in kinds for c in cfgs for a in range(nS) for b in range(nS)]
+            t1 = time.time()
+            done = 0
+            for r in pool.imap_unordered(run_job, jobs, chunksize=4 if depth < 3 else 1):
+                done += 1
+                key = f'depth{depth}'
+                e = table.setdefault(key, {}).setdefault(f'kind{r["kind"]}', dict(
+                    sequences_run=0, sequences_pruned_as_refused=0, op_lines=0, cells=0))
+                e['sequences_run'] += r['nseq']; e['sequences_pruned_as_refused'] += r['pruned']
+                e['op_lines'] += r['lines']; e['cells'] += 1
+                for k_, v in r['cells'].items():
+                    cells[k_] = cells.get(k_, 0) + v
+                for k_, v in r['events'].items():
+                    events.setdefault(k_, set()).update(v)
+                for m, seq, ho in r['viol']:
+                    if nviol < 6:
+                        rep.violation(f'monitor(exhaustive depth {depth}, kind {r["kind"]}, traits {r["cfg"]}): {m}',
+                                      {'seq': seq, 'impl_out': ho}, True)
+                    nviol += 1
+                if r['corr'] and not any(b_.startswith('correspondence (exhaustive') for b_ in broken):
+                    i, o, ho, do, seq = r['corr']
+                    broken.append(f'correspondence (exhaustive depth {depth}, kind {r["kind"]}, traits {r["cfg"]}): '
+                                  f'model and implementation differ on `{o}`: impl={str(ho)[:160]} model={str(do)[:160]}')
+                    rep.cov['first_disagreement_exhaustive'] = {'seq': seq, 'op': o, 'impl': ho, 'model': do}
+            want = len(jobs)
+            e = table.setdefault(f'depth{depth}', {})
+            e['cells_expected'] = want; e['cells_run'] = done; e['wall_s'] = round(time.time() - t1, 1)
+            if done != want:
+                broken.append(f'required coverage: exhaustive depth {depth}: {done} of {want} cells ran')
+            if nviol:
+                break
+    total = sum(v['op_lines'] for d_ in table.values() for k_, v in d_.items() if k_.startswith('kind'))
+    rep.cov['evaluations'] += total
+    rep.cov['traces_validated_against_impl'] += total if dexe and not any('correspondence (exhaustive' in b_ for b_ in broken) else 0
+    rep.cov['exhaustive'] = table
+    rep.cov['exhaustive_wall_s'] = round(time.time() - t0, 1)
+    # ---- required coverage: every wrapper kind was seen doing every operation with every outcome
+    miss = [c for c in required_cells() if cells.get(c, 0) == 0]
+    miss_ev = {k: ''.join(x for x in REQUIRED_EVENTS if x not in events.get(k, ())) for k in KINDS}
+    miss_ev = {k: v for k, v in miss_ev.items() if v}
+    tab = {}
+    for (k, op, oc), v in sorted(cells.items()):
+        tab.setdefault(f'kind{k}', {}).setdefault(op, {})[oc] = v
+    rep.cov['kind_op_outcome_table'] = tab
+    rep.cov['wrapper_kinds'] = {f'kind{k}': v for k, v in KINDS.items()}
+    rep.cov['required_cells'] = len(required_cells())
+    rep.cov['required_cells_covered'] = len(required_cells()) - len(miss)
+    if (miss or miss_ev) and not nviol:
+        broken.append(f'required coverage: never exercised: {miss[:6]} events {miss_ev}')
+
+
 def extra_stage(rep, broken, exe, tier):
     rep.cov['generator'] = getattr(gen_ops, 'stats', {})
+    if exe:
+        exhaustive_stage(rep, broken, exe, tier)
+
+
+N_QUICK, N_THOROUGH = 60000, 400000
+SAN = ['-fsanitize=address,undefined', '-fno-sanitize-recover=all', '-fno-omit-frame-pointer']
+
+
+def harness_sources():
+    H = os.path.join(C.VERIF, 'harness')
+    return [os.path.join(H, f) for f in ('c16.cpp', 'c16_k1.cpp', 'c16_k2.cpp', 'c16_k3.cpp')] + \
+        C.repo_lib_sources(['demangled-typename', 'problem/type-erased-problem.cpp', 'problem/ocproblem.cpp'])
+
+
+def replay(r):
+    """`checks/replay.py <file>`: re-run the recorded sequence through the real code, the model and the monitor."""
+    pl = r.get('payload') or {}
+    seq = pl.get('seq')
+    if not seq and pl.get('op') and 'index' in pl:
+        # standard flow: deterministic in (seed, tier) — regenerate and cut out the sequence
+        tier = r.get('tier', 'quick')
+        rng = random.Random(int(r.get('seed', 1)) * 1000003 + (17 if tier == 'thorough' else 0))
+        ops = gen_ops(rng, N_THOROUGH if tier == 'thorough' else N_QUICK)
+        i = pl['index']
+        if i < len(ops) and ops[i] == pl['op']:
+            seq = seq_around(ops, i)
+    if not seq:
+        print('replay: no sequence recorded (broken proof / tie, or a search-phase input):', r.get('what'))
+        return 1
+    if not seq[0].startswith('reset'):
+        seq = ['reset 0 0'] + seq
+    if not seq[-1].startswith('reset'):
+        seq = seq + ['reset 0 0']
+    exe, log = C.build_exe('c16', harness_sources(), SAN, SAN)
+    if exe is None:
+        print(log[-2000:])
+        return 1
+    h, rc, err = C.run_lines(exe, seq)
+    dexe = C.driver_exe('drv_c16')
+    d = C.run_lines(dexe, seq)[0] if os.path.exists(dexe) else []
+    st, bad = {'cells': {}, 'events': {}}, None
+    for k, o in enumerate(seq):
+        ho = h[k] if k < len(h) else '<no output>'
+        do = d[k] if k < len(d) else ''
+        print(f'{o:24s} impl: {ho}' + ('' if not d or ho.strip() == do.strip() else f'   MODEL DIFFERS: {do}'))
+        if bad is None and k < len(h):
+            bad = monitor(o, ho, st)
+            if bad:
+                print('   monitor:', bad)
+    if rc != 0:
+        print('real code crashed:', err[-600:])
+    print('monitor:', bad)
+    return 1 if bad or rc != 0 else 0
 
 
 if __name__ == '__main__':
-    san = ['-fsanitize=address,undefined', '-fno-sanitize-recover=all', '-fno-omit-frame-pointer']
     sys.exit(C.standard_check(
         'C16', sys.argv,
         gen_scripts=['gen_c16.py'], modules=['Alpaqa.Props.C16'], driver='drv_c16',
@@ -450,11 +708,10 @@ if __name__ == '__main__':
                        'Alpaqa/Proofs/C16Ops.lean', 'Alpaqa/Proofs/C16Step.lean',
                        'Alpaqa/Proofs/C16Exec.lean', 'Alpaqa/Proofs/C16Shape.lean'],
         harness_name='c16',
-        harness_sources=[os.path.join(C.VERIF, 'harness', 'c16.cpp')] +
-        C.repo_lib_sources(['demangled-typename']),
-        harness_flags=san, harness_ldflags=san,
+        harness_sources=harness_sources(),
+        harness_flags=SAN, harness_ldflags=SAN,
         gen_ops=gen_ops, monitor=monitor, nontrivial=nontrivial, extra_stage=extra_stage,
-        n_quick=120000, n_thorough=800000, search_factor=2,
+        n_quick=N_QUICK, n_thorough=N_THOROUGH, search_factor=2,
         trusted_base=[
             'Lean 4.33 kernel (axioms: propext, Classical.choice, Quot.sound)',
             'gen/cxxparse.py + gen/lean_emit.py + gen/gen_c16.py (translator: sentinels, ownership / '
@@ -466,17 +723,25 @@ if __name__ == '__main__':
             'executable model IS the interpreter of the regenerated programs; '
             'step_runs_generated_programs proves it equal, on every state and operation, to the '
             'hand-staged bodies the invariant proofs use); the meaning of the ~45 action names is '
-            'tied to the C++ statements by event-log correspondence on the explored sequences',
+            'tied to the C++ statements by event-log correspondence on the explored sequences, for four '
+            'wrapper types: a bespoke TypeErased<VT, A, 32>, the real TypeErasedProblem and '
+            'TypeErasedControlProblem (small-buffer size 0, static_assert-ed in the harness) and a '
+            'required-method.hpp style vtable with the default buffer size — the model is the same, '
+            'only Cfg.sbs differs',
             'std::allocator_traits / uninitialized_construct_using_allocator as documented; '
-            'AddressSanitizer + UBSan on the harness',
+            'AddressSanitizer + UBSan on the harness; the harness\'s instrumented payload / allocator / '
+            'arena ledger (events are emitted by the payload\'s own special members, its `set`, and the '
+            'allocator)',
         ],
         assumptions=['referenced (non-owned) objects outlive the wrappers that reference them',
                      'dispatch / as<T>() on an empty wrapper is outside the property (harness tests '
                      'operator bool first)',
                      'payload move constructors do not throw; allocators do not throw'],
-        rule='sequences over a pool of 3 wrappers: exhaustive depth 1 (all 8 allocator-trait '
-             'configurations × 9×9 initial contents × 40 mutators), depth 2 and 3 seeded sub-samples '
-             '(depth 2 complete for one seed-chosen configuration in the thorough tier), each mutator followed by '
-             'get on every slot; seeded random sequences of length 5..200; distinct = (op kind, '
-             'event-kind string, outcome)',
+        rule='sequences over a pool of 3 wrappers, for 4 wrapper types × 8 allocator-trait configurations: '
+             'EXHAUSTIVE depth 1 (9×9 initial contents × 40 mutators, each followed by get / get_pointer / '
+             'as<T> / as<const T> on every slot) and depth 2 in both tiers, depth 3 in the thorough tier '
+             '(histories containing a mutator the harness refuses on slot state are the same as shorter '
+             'ones and are pruned, counted); final state probed by get on every slot; plus seeded samples '
+             'of depth 3 / 4 and random sequences of length 5..200; distinct = (op kind, event-kind string, '
+             'outcome)',
     ))
